@@ -158,7 +158,7 @@ class Driver(SystemWideDevice):
         if hold_power is None:
             hold_power = 0.0
 
-        if hold_power and 0 > hold_power > 1:
+        if not 0 <= hold_power <= 1:
             raise AssertionError("Hold_power has to be between 0 and 1 but is {}".format(hold_power))
 
         max_hold_power = 0      # type: float
